@@ -35,7 +35,7 @@ def run(ctx):
     # the Encoder half on never-Reset Encoders whose first call coincides with the initial state (what is written must
     # decode to what was called), and the Renderer half when the target is set late or changed between paths
     from lib import enccheck
-    z = enccheck.run_enc_traces(ctx, ["zerofirst"], 10, ["err", "mode", "run", "lod", "sel"], want=("enc", "rt"), sub="zerofirst", shards=2)
+    z = enccheck.run_enc_traces(ctx, ["zerofirst", "wellformed"], 90 if quick else 3000, ["err", "mode", "run", "lod", "sel"], want=("enc", "rt"), sub="zerofirst", shards=4)
     for kind, ds in z["diags"].items():
         for d in ds:
             ctx.violation("zerofirst:%s:%s:%s" % (kind, d.get("diag"), d.get("id")),
